@@ -75,10 +75,12 @@ def Pattern.new (src : Source) (original : Str) : Pattern :=
     dirOnly := endSlash }
 
 /-- `str::lines()`: split at `\n`, drop one trailing `\r` per line, no final empty line -/
+def lineOfAcc (acc : Str) : Str := match acc with | '\r' :: a => a.reverse | a => a.reverse
+
 def rustLinesAux : Str → Str → List Str
   | acc, [] => if acc.isEmpty then [] else [acc.reverse]
   | acc, c :: r =>
-    if c = '\n' then (match acc with | '\r' :: a => a.reverse | a => a.reverse) :: rustLinesAux [] r
+    if c = '\n' then lineOfAcc acc :: rustLinesAux [] r
     else rustLinesAux (c :: acc) r
 
 def rustLines (s : Str) : List Str := rustLinesAux [] s
